@@ -17,6 +17,9 @@ use vh::*;
 // the DDL core of C01 (CREATE TABLE): modes `ddl` / `ddltables`
 #[path = "../ddl_mode.rs"]
 mod ddl_mode;
+// the DML core of C01 (INSERT / UPDATE / DELETE): modes `dml` / `dmltables`
+#[path = "../dml_mode.rs"]
+mod dml_mode;
 
 /// Exhaustive on purpose: a new `Precedence` variant makes this crate fail to build, which the
 /// check reports (the pinned published order has no place for it).
@@ -712,6 +715,11 @@ fn main() {
         "ddl" => for_each_case(|c| {
             let d = dialect_by_name(c["dialect"].as_str().unwrap());
             ddl_mode::run_ddl(&*d, c["sql"].as_str().unwrap())
+        }),
+        "dmltables" => println!("{}", dml_mode::dmltables()),
+        "dml" => for_each_case(|c| {
+            let d = dialect_by_name(c["dialect"].as_str().unwrap());
+            dml_mode::run_dml(&*d, c["sql"].as_str().unwrap())
         }),
         "query" => for_each_case(|c| {
             let d = dialect_by_name(c["dialect"].as_str().unwrap());
